@@ -10,7 +10,7 @@ use crate::seq::read_apdu;
 use crate::transport::anyhow_kind;
 use std::collections::HashMap;
 use std::sync::{Arc, Mutex};
-use tokio::io::{AsyncWriteExt, DuplexStream};
+use tokio::io::{AsyncReadExt, AsyncWriteExt, DuplexStream};
 use zvt_feig_terminal::config::{Config, FeigConfig};
 use zvt_feig_terminal::feig::{CardInfo, Feig};
 use zvt_feig_terminal::verif_hook::{set_connector, ConnectOutcome};
@@ -70,13 +70,42 @@ fn default_replies(kind: &str, sh: &Shared) -> Vec<Vec<u8>> {
     }
 }
 
+/// `n` bytes from the client, bytes that arrived while the terminal was pausing first
+async fn read_n(pb: &mut Vec<u8>, s: &mut DuplexStream, n: usize) -> Option<Vec<u8>> {
+    let mut v: Vec<u8> = pb.drain(..pb.len().min(n)).collect();
+    if v.len() < n {
+        let mut rest = vec![0u8; n - v.len()];
+        s.read_exact(&mut rest).await.ok()?;
+        v.extend_from_slice(&rest);
+    }
+    Some(v)
+}
+
+async fn read_apdu_pb(pb: &mut Vec<u8>, s: &mut DuplexStream) -> Option<Vec<u8>> {
+    if pb.is_empty() {
+        return read_apdu(s).await;
+    }
+    let mut v = read_n(pb, s, 3).await?;
+    let len = if v[2] == 0xff {
+        let e = read_n(pb, s, 2).await?;
+        v.extend_from_slice(&e);
+        u16::from_le_bytes([e[0], e[1]]) as usize
+    } else {
+        v[2] as usize
+    };
+    let body = read_n(pb, s, len).await?;
+    v.extend_from_slice(&body);
+    Some(v)
+}
+
 /// one connection of the simulated terminal
 async fn serve(mut s: DuplexStream, k: usize, sh: Arc<Mutex<Shared>>) {
     let mut pending: std::collections::VecDeque<Vec<u8>> = Default::default();
     let mut sent = 0usize;
     let mut stalled = false;
+    let mut pb: Vec<u8> = vec![];
     loop {
-        let Some(p) = read_apdu(&mut s).await else {
+        let Some(p) = read_apdu_pb(&mut pb, &mut s).await else {
             let mut g = sh.lock().unwrap();
             let t = now_s(&g);
             g.logs[k].push(format!("close@{}", t));
@@ -113,7 +142,26 @@ async fn serve(mut s: DuplexStream, k: usize, sh: Arc<Mutex<Shared>>) {
             };
             sent += 1;
             if gap > 0 {
-                tokio::time::sleep(std::time::Duration::from_secs(gap)).await;
+                // the pause before the item; a client that hangs up meanwhile is noticed at once (the log
+                // carries the moment the client closed, not the terminal's pace)
+                let pause = tokio::time::sleep(std::time::Duration::from_secs(gap));
+                tokio::pin!(pause);
+                loop {
+                    let mut one = [0u8; 1];
+                    tokio::select! {
+                        biased;
+                        _ = &mut pause => break,
+                        r = s.read(&mut one) => match r {
+                            Ok(1) => pb.push(one[0]),
+                            _ => {
+                                let mut g = sh.lock().unwrap();
+                                let t = now_s(&g);
+                                g.logs[k].push(format!("close@{}", t));
+                                return;
+                            }
+                        },
+                    }
+                }
             }
             match fault {
                 None => {
